@@ -320,3 +320,87 @@ func blockPastEnd(rec *vr.Rec, reps int) {
 		}
 	}
 }
+
+// cancelDuringContinuation: a block-wise download is cancelled by its caller at the very moment the next block of the
+// response is being handled. The caller's request message goes back to the pool with the end of the call; the receive
+// path, which builds the request for the following block from it, must never see it in that state. Every request the
+// connection puts on the wire is a GET for a path some caller asked for, under that caller's token - not the encoding of
+// a recycled object.
+func cancelDuringContinuation(rec *vr.Rec, reps int) {
+	p := pool.New(2, 2048)
+	s := sim.NewMemSession()
+	cc := sim.NewUDPConn(s, sim.UDPOpts{Pool: p, Blockwise: true, SZX: 0, BWTimeout: 3 * time.Second})
+	defer cc.Close()
+	inject := func(m ref.Msg) { _ = cc.Process(nil, ref.EncodeUDP(m)) }
+	asked := map[string]string{} // token -> path
+	seen := 0
+	for rep := 0; rep < reps; rep++ {
+		path := fmt.Sprintf("/big/%d", rep)
+		tok := []byte{0xcd, byte(rep >> 8), byte(rep)}
+		asked[string(tok)] = path
+		ctx, cancel := context.WithCancel(context.Background())
+		done := make(chan struct{})
+		go func() {
+			defer close(done)
+			req := cc.AcquireMessage(ctx)
+			_ = req.SetupGet(path, tok)
+			resp, err := cc.Do(req)
+			cc.ReleaseMessage(req)
+			if err == nil {
+				cc.ReleaseMessage(resp)
+			}
+			// the pool is small: whatever was released is re-used at once by somebody else
+			o := cc.AcquireMessage(context.Background())
+			o.SetCode(codes.DELETE)
+			_ = o.SetPath("/other/exchange")
+			o.SetToken([]byte{0x0f, 0x0f})
+			cc.ReleaseMessage(o)
+		}()
+		var first ref.Msg
+		if !sim.WaitFor(3*time.Second, func() bool {
+			log := s.Log()
+			for ; seen < len(log); seen++ {
+				if m, err := ref.ParseUDP(log[seen].Data); err == nil && m.Code == 1 && bytes.Equal(m.Token, tok) {
+					first = m
+					seen++
+					return true
+				}
+			}
+			return false
+		}) {
+			cancel()
+			<-done
+			continue
+		}
+		var start sync.WaitGroup
+		start.Add(1)
+		go func() { start.Wait(); cancel() }()
+		start.Done()
+		if rep%2 == 0 {
+			time.Sleep(time.Duration(rep%7) * 5 * time.Microsecond)
+		}
+		inject(ref.Msg{Type: 2, Code: 0x45, MID: first.MID, Token: tok, Opts: []ref.Opt{{ID: 23, Val: ref.Uint(8)}}, Payload: bytes.Repeat([]byte{'q'}, 16)})
+		<-done
+		cancel()
+	}
+	time.Sleep(500 * time.Microsecond)
+	rec.Eval("cancel-during-continuation")
+	rec.Count("downloads_cancelled_while_a_block_arrived", int64(reps))
+	bad := 0
+	for _, d := range s.Log() {
+		m, err := ref.ParseUDP(d.Data)
+		if err != nil {
+			rec.Violation("C12/udp/blockwise/garbage-on-the-wire", fmt.Sprintf("%x: %v", d.Data, err), nil)
+			bad++
+		} else if m.Code >= 1 && m.Code <= 31 { // a request of the connection (it may also send 4.08 answers to blocks of transfers it has dropped)
+			want, ok := asked[string(m.Token)]
+			if m.Code != 1 || !ok || ref.PathOf(m) != want {
+				rec.Violation("C12/udp/blockwise/continuation-built-from-a-message-it-no-longer-owns", fmt.Sprintf("on the wire: code %d.%02d token %x path %q; callers only issued GETs for /big/<n> under tokens cd....", m.Code>>5, m.Code&31, m.Token, ref.PathOf(m)), nil)
+				bad++
+			}
+		}
+		if bad > 3 {
+			break
+		}
+	}
+}
